@@ -534,13 +534,22 @@ pub fn f1_dense(rng: &mut Rng) -> Pos {
 // ------------------------------------------------------------------ F2
 
 pub fn true_legal_moves(b: &Board) -> Vec<Move> {
-    // `validate` uses the checker without the pre-checker shortcut, so it filters
-    // out the moves the legal generator wrongly keeps (known en-passant defect).
-    legal::gen_all(b)
+    // The generators must not depend on ONE legality decider of the library under test: a defect in it would steer
+    // them away from exactly the positions that expose it. Two deciders with disjoint code are combined — the legal
+    // generator re-checked by `validate` (the `Checker` without the pre-checker shortcut), and the semilegal
+    // generator followed by apply-and-test (`Make for Move`: make, look whether the king is attacked, roll back) —
+    // and a move counts when either accepts it. Which of the two is right is for the oracle to say.
+    let mut v: Vec<Move> = legal::gen_all(b)
         .iter()
         .copied()
         .filter(|m| m.validate(b).is_ok())
-        .collect()
+        .collect();
+    for m in semilegal::gen_all(b).iter() {
+        if !v.contains(m) && matches!(catch_unwind(AssertUnwindSafe(|| m.make(b))), Ok(Ok(_))) {
+            v.push(*m);
+        }
+    }
+    v
 }
 
 pub fn is_interesting(b: &Board, m: &Move) -> bool {
@@ -1531,6 +1540,7 @@ pub fn f3i(rng: &mut Rng, per_group: usize, tries: usize) -> Vec<Pos> {
     for t in 0..(tries / 2) {
         let mut cells: Cells = [0; 64];
         let want_double = t % 2 == 0;
+        let mut pawn_checks = false;
         if want_double {
             // White: king on rank 4 checked along the rank by a rook, a pawn on rank 2 between them
             let kf = rng.below(8) as usize;
@@ -1549,7 +1559,15 @@ pub fn f3i(rng: &mut Rng, per_group: usize, tries: usize) -> Vec<Pos> {
             let g = if f == 0 { 1 } else if f == 7 { 6 } else if rng.chance(1, 2) { f - 1 } else { f + 1 };
             cells[3 * 8 + f] = WP;
             cells[3 * 8 + g] = BP;
-            let k = rng.below(64) as usize;
+            // half of the time the pawn that has just made the double step is the one giving check (the king stands
+            // diagonally behind it), so that capturing it en passant is the evasion
+            pawn_checks = rng.chance(1, 2);
+            let k = if pawn_checks {
+                let kf = if g == 0 { 1 } else if g == 7 { 6 } else if rng.chance(1, 2) { g - 1 } else { g + 1 };
+                4 * 8 + kf
+            } else {
+                rng.below(64) as usize
+            };
             if cells[k] != 0 {
                 continue;
             }
@@ -1560,10 +1578,21 @@ pub fn f3i(rng: &mut Rng, per_group: usize, tries: usize) -> Vec<Pos> {
             continue;
         }
         cells[bk] = BK;
-        let n = 2 + rng.below(6) as usize;
+        let n = if pawn_checks { 3 + rng.below(6) as usize } else { 2 + rng.below(6) as usize };
+        let wk = (0..64).find(|&i| cells[i] == WK).unwrap_or(0);
         for _ in 0..n {
             let m = *rng.pick(&[BN, BB, BR, BQ, BP, BP, WP, BQ]);
-            let sq = rng.below(64) as usize;
+            // boxing the king in needs the men close to it
+            let sq = if pawn_checks && rng.chance(3, 4) {
+                let r = (wk / 8) as i32 + rng.below(5) as i32 - 2;
+                let c = (wk % 8) as i32 + rng.below(7) as i32 - 3;
+                if !on_board(r, c) {
+                    continue;
+                }
+                (r * 8 + c) as usize
+            } else {
+                rng.below(64) as usize
+            };
             if cells[sq] != 0 || ((m == WP || m == BP) && (sq / 8 == 0 || sq / 8 == 7)) {
                 continue;
             }
@@ -1592,6 +1621,7 @@ pub fn f3i(rng: &mut Rng, per_group: usize, tries: usize) -> Vec<Pos> {
             if (g != "pawn-double" && g != "ep") || ms.iter().any(|m| move_group(&p.board, m) != g) {
                 continue;
             }
+            let g = if g == "ep" && pawn_checks { "ep-of-the-checking-pawn" } else { g };
             let cnt = have.entry(g).or_insert(0);
             if *cnt >= per_group {
                 continue;
